@@ -18,7 +18,8 @@ MH = "liesel.goose.mh.mh_step"
 def _book(ci):
     e = ci.class_attr("error_book")
     try:
-        return ast.literal_eval(e) if e is not None else None
+        from .common import literal_of
+        return literal_of(ci.module.repo, ci.module, e) if e is not None else None
     except Exception:
         return None
 
